@@ -73,7 +73,7 @@ def check(ctx):
                 "on two small crystals (with and without cutoff), basis sets shared between all objects of a world; non-trivial: history contains a solve or run")
     worlds = [World(rng, "mono_P"), World(rng, "tri2_Pm1", cutoff={3: 4.0}, n_snaps=(14, 14, 18))]
     if not ctx.quick:
-        worlds.append(World(rng, "tri1", diag=(2, 1, 1), n_snaps=(14, 14, 18)))
+        worlds.append(World(rng, "tri2_P1", n_snaps=(24, 24, 30)))   # every basis non-empty (an empty FC3 basis makes the solver raise ValueError; outside the domain)
     n_hist, length = (10, 8) if ctx.quick else (60, 12)
     for wi, w in enumerate(worlds):
         try:
